@@ -120,7 +120,7 @@ void mc_allow_exit(int on) { g_allow_exit = on; }
 const char *mc_arg(const char *name, const char *dflt)
 {
     size_t n = strlen(name);
-    for (int i = 0; i < g_nxargs; i++)
+    for (int i = g_nxargs - 1; i >= 0; i--)          /* the last one given wins (tools/check --xarg overrides the registered value) */
         if (!strncmp(g_xargs[i], name, n) && g_xargs[i][n] == '=') return g_xargs[i] + n + 1;
     return dflt;
 }
